@@ -267,8 +267,9 @@ def rule_d(ctx):
         cs = [(bb, t) for bb, t in body.calls(lambda cd, t: callee_method(t) == "ordered_item_prefix")
               if body is cops or bb in region]
         forms = sorted(norm(body.expr_top(t["args"][1], expand_named=True)) for bb, t in cs)
-        okc = len(forms) == 2 and any(f.endswith("- 1_i64)") and " + " in f for f in forms) and \
-            any(("+" not in f and "-" not in f) for f in forms)
+        forms = [f.replace("<impl i64>::saturating_sub(", "sat_sub(") for f in forms]
+        okc = len(forms) == 2 and any((f.endswith("- 1_i64)") or (f.startswith("sat_sub(") and f.endswith(", 1_i64)"))) and " + " in f
+                                      for f in forms) and any(("+" not in f and "-" not in f and "sat_sub" not in f) for f in forms)
         ctx.check(okc, "C07-D", "marker-width-inputs:%s=(start, start+n-1)" % nm, body.span, body.id, "numbers measured: %s" % forms)
 
 
